@@ -211,6 +211,9 @@ fn run_fd_exhausted(naming: NamingK, mode: ModeK, step: i64, clean: CleanK) -> R
     w(3, &mut lines);
     handle.shutdown();
     drop(logger);
+    // (the next build() in this process reports "palette already initialized" to the channel
+    // configured now: make that the file again while stderr is still captured)
+    drop(Cfg::norot().build_logger(&env.root.path().join("throwaway"), &env.err));
     let stderr_text = String::from_utf8_lossy(&cap.finish()).to_string();
     env.leave();
     let mut all = Vec::new();
